@@ -235,7 +235,7 @@ pub const NUMBERS: &[&str] = &[
 pub const SPECIALS: &[&str] = &[
     "e.g.", "i.e.", "etc.", "vs.", "et al.", "N.S.A.", "a.m.", "p.m.", "U.S.", "I.", "x.y.z", "Mr.", "don't", "it's", "its'", "I'm", "you're", "o'clock", "rock'n'roll",
     "don\u{2019}t", "it\u{2019}s", "foo@bar.com", "a@b", "@", "http://example.com", "https://a.b/c?d=e#f", "www.example.com", "example.com", "ftp://x", "mailto:me@x.y",
-    "[a-z]", "[a-z0-9]+", "[[link]]", "[[a|b]]", "[[a|", "|b]]", "[text](url)", "![img](u \"t\")", "`code`", "``", "*em*", "**b**", "_u_", "~~s~~", "<b>", "</b>", "<!-- c -->", "&amp;", "&#x41;", "$x^2$", "$$", "# h", "> q", "- i", "1. i", "| a | b |", "---", "```", "~~~", "{@link x}", "{@link", "@param x", "TODO:", "NOTE:", "spell-checker:disable", "harper:ignore", "foo_bar", "my-ident", "snake_case_name", "CamelCase", "kebab-case-word",
+    "[a-z]", "[a-z0-9]+", "[[link]]", "[[a|b]]", "[[a|", "|b]]", "[[a|]]b", "[[target|]]text", "[[|b]]c", "[text](url)", "![img](u \"t\")", "`code`", "``", "*em*", "**b**", "_u_", "~~s~~", "<b>", "</b>", "<!-- c -->", "&amp;", "&#x41;", "$x^2$", "$$", "# h", "> q", "- i", "1. i", "| a | b |", "---", "```", "~~~", "{@link x}", "{@link", "@param x", "TODO:", "NOTE:", "spell-checker:disable", "harper:ignore", "foo_bar", "my-ident", "snake_case_name", "CamelCase", "kebab-case-word",
     "#config.a._private", "#settings.an._hidden", "#x.the._how.a", "#(a: 1, _b: 2).a", "#let (a, _b) = (1, 2)", "#f(an: _x, a: \"b\")", "#a.b.c()", "#let f(x, ..rest) = x", "#show: a => a._b", "#set text(an: 1)", "#import \"a.typ\": _x, an", "#context a._b", "#if a._b { an } else { _c }", "#for (a, _b) in x { a }",
     "the how", "better then", "an apple", "a apple", "the the", "to to", "could of", "there going", "alot", "teh", "wrold", "recieve", "Im", "i", "im", "ive",
 ];
